@@ -519,6 +519,10 @@ def make_shims(world):
         return W.fresh_param(shape, "U")
 
     def rpermutation(key, x, **k):
+        if isinstance(x, Arr) and x.ndim == 1 and x.is_concrete() and list(x.elems) == list(range(x.shape[0])):
+            x = x.shape[0]
+        if isinstance(x, Arr) and x.ndim == 0 and x.is_concrete():
+            x = A._as_int(x)
         if isinstance(x, (int,)):
             n = x
             W.param_counter += 1
